@@ -23,8 +23,10 @@ pub struct VClock {
     pub mono: (i64, i64),
     /// sequence of clock ids read while active
     pub reads: Vec<i32>,
-    /// if set: every read of the monotonic clock advances it by this many ns (C12 style scenarios)
+    /// if set: reads of this clock id fail
     pub fail_id: Option<i32>,
+    /// every read of the monotonic clock advances it by this many ns afterwards (C12 style scenarios)
+    pub advance_ns: i64,
 }
 
 #[no_mangle]
@@ -40,7 +42,14 @@ pub unsafe extern "C" fn clock_gettime(clk: libc::clockid_t, tp: *mut libc::time
         }
         let t = match clk {
             libc::CLOCK_REALTIME => v.real,
-            libc::CLOCK_MONOTONIC | libc::CLOCK_MONOTONIC_COARSE => v.mono,
+            libc::CLOCK_MONOTONIC | libc::CLOCK_MONOTONIC_COARSE => {
+                let t = v.mono;
+                if v.advance_ns != 0 && clk == libc::CLOCK_MONOTONIC_COARSE {
+                    let ns = v.mono.0 as i128 * 1_000_000_000 + v.mono.1 as i128 + v.advance_ns as i128;
+                    v.mono = ((ns.div_euclid(1_000_000_000)) as i64, (ns.rem_euclid(1_000_000_000)) as i64);
+                }
+                t
+            }
             _ => return None,
         };
         (*tp).tv_sec = t.0;
@@ -95,7 +104,7 @@ fn cmd_now(a: &[i64]) -> String {
     );
     VCLOCK.with(|v| {
         let mut v = v.borrow_mut();
-        *v = VClock { active: true, real: (a[7], a[8]), mono: (a[9], a[10]), reads: vec![], fail_id: None };
+        *v = VClock { active: true, real: (a[7], a[8]), mono: (a[9], a[10]), reads: vec![], fail_id: None, advance_ns: 0 };
     });
     let r = catch_unwind(AssertUnwindSafe(|| ceb.now()));
     let reads = VCLOCK.with(|v| {
